@@ -1,5 +1,152 @@
 import Ecal.Drivers.Util
+import Ecal.Model.Engine
+/-!
+Driver of C01. Payload: space separated `key=value` fields
+
+  `w=<workers> m=<w|a> o=<i|p> r=<rule>|<rule>… s=<scope> e=<event>|<event>… x=<regex table>`
+
+* `m`, `o`, `w` only steer the harness (wait / async adding; index or processor first; worker count).
+* rule  `name;kinds;scopes;state;prio;suppress` — names/kinds/paths/keys hex encoded (`-` = empty
+  string, `_` = empty list), lists joined by `,`; state `N` (nil map) or entries `key:pat` with
+  pat `A` (nil) | `H<class>i<n>` (hashable value) | `D<class>i<n>` (list/map) | `X<regex id>`.
+* scope `N` (nil monitor: default scope) or entries `path:0|1`.
+* event `name;kind;state` — kind = segments joined by `,`; state entries `key:val`, val `Z` (nil) |
+  `H…` | `D…`.
+* x     entries `regexid:valtoken:0|1` (valtoken without the `i<n>` part): Go's `regexp` answer.
+
+Result: `a=<one 0/1 per rule: AddRule returned an error>` then per event
+`T<IsTriggering>/M<sorted Match names>/K<AddEvent returned a monitor>/X<sorted executed names>`.
+-/
 namespace Ecal.Drv.C01
-/-- model driver of property C01 (stub: not implemented yet) -/
-def run (_args : List String) : IO Unit := Ecal.Drv.lineLoop fun _ => "unimplemented"
+open Ecal.Drv Ecal.Engine
+
+/-- bytes as a string, one character per byte (injective; "." and "*" keep their codes) -/
+def hexStr (s : String) : Option String := (hexDecode s).map fun bs => String.ofList (bs.map Char.ofNat)
+
+def listOf (s : String) : List String := if s = "_" then [] else s.splitOn ","
+
+def splitDots (s : String) : List String := s.splitOn "."
+
+/-- `H12i3` → class 12 -/
+def classOf (s : String) : Option Nat :=
+  match (String.ofList (s.toList.drop 1)).splitOn "i" with
+  | c :: _ => c.toNat?
+  | [] => none
+
+def parseVal (s : String) : Option Val :=
+  match s.toList with
+  | ['Z'] => some .null
+  | 'H' :: _ => (classOf s).map .atom
+  | 'D' :: _ => (classOf s).map .deep
+  | _ => none
+
+def parsePat (s : String) : Option Pat :=
+  match s.toList with
+  | ['A'] => some .any
+  | 'H' :: _ => (classOf s).map .atom
+  | 'D' :: _ => (classOf s).map .deep
+  | 'X' :: rest => (String.ofList rest).toNat?.map .rx
+  | _ => none
+
+def parseEntry (f : String → Option β) (s : String) : Option (String × β) :=
+  match s.splitOn ":" with
+  | [k, v] => do pure ((← hexStr k), (← f v))
+  | _ => none
+
+def parseRule (s : String) : Option Rule :=
+  match s.splitOn ";" with
+  | [name, kinds, scopes, state, prio, supp] => do
+    let name ← hexStr name
+    let kinds ← (listOf kinds).mapM hexStr
+    let scopes ← (listOf scopes).mapM hexStr
+    let state ← if state = "N" then pure none else (some <$> (listOf state).mapM (parseEntry parsePat))
+    let prio ← prio.toInt?
+    let supp ← (listOf supp).mapM hexStr
+    pure { name, kinds := kinds.map splitDots, scope := scopes.map splitDots, state, prio, suppress := supp }
+  | _ => none
+
+def parseEvent (s : String) : Option Event :=
+  match s.splitOn ";" with
+  | [name, kind, state] => do
+    pure { name := (← hexStr name), kind := (← (listOf kind).mapM hexStr),
+           state := (← (listOf state).mapM (parseEntry parseVal)) }
+  | _ => none
+
+def parseScope (s : String) : Option (List (List Seg × Bool)) :=
+  if s = "N" then some [([], true)]
+  else (listOf s).mapM fun e =>
+    match e.splitOn ":" with
+    | [p, b] => do
+      let p ← hexStr p
+      pure (if p = "" then [] else splitDots p, b = "1")
+    | _ => none
+
+def valToken : Val → String
+  | .null => "Z"
+  | .atom c => "H" ++ toString c
+  | .deep c => "D" ++ toString c
+
+def parseTable (s : String) : Option (List ((Nat × String) × Bool)) :=
+  (listOf s).mapM fun e =>
+    match e.splitOn ":" with
+    | [i, v, b] => do pure ((← i.toNat?, v), b = "1")
+    | _ => none
+
+def field (fs : List String) (k : String) : Option String :=
+  fs.findSome? fun f => if f.startsWith (k ++ "=") then some (String.ofList (f.toList.drop (k.length + 1))) else none
+
+def hexName (s : String) : String := hexEnc (s.toList.map Char.toNat)
+
+def names (l : List String) : String :=
+  if l.isEmpty then "_" else ".".intercalate ((l.map hexName).mergeSort (fun a b => a ≤ b))
+
+def bit (b : Bool) : String := if b then "1" else "0"
+
+def outNames (o : Out (List Rule)) : String :=
+  match o with
+  | .ok l => names (l.map (·.name))
+  | .panic => "PANIC"
+  | .hang => "HANG"
+
+def runCase (payload : String) : String :=
+  let fs := payload.splitOn " "
+  match field fs "r", field fs "s", field fs "e", field fs "x" with
+  | some r, some s, some e, some x =>
+    match (if r = "_" then some [] else (r.splitOn "|").mapM parseRule), parseScope s,
+          (if e = "_" then some [] else (e.splitOn "|").mapM parseEvent), parseTable x with
+    | some rules, some defs, some evs, some tab =>
+      -- a missing table entry must not go unnoticed
+      let missing := evs.any fun ev => rules.any fun r => (r.state.getD []).any fun kp =>
+        match kp.2, alookup kp.1 ev.state with
+        | .rx id, some v => (alookup (id, valToken v) tab).isNone
+        | _, _ => false
+      if missing then "MISSING-REGEX-ENTRY" else
+      let rx : Nat → Val → Bool := fun id v => (alookup (id, valToken v) tab).getD false
+      -- AddRule one by one
+      let (root, errs) := rules.foldl (fun (acc : Root × List Bool) r =>
+        let (rt, err) := acc.1.addRule r; (rt, acc.2 ++ [err])) (({} : Root), [])
+      let sc := Scope.build defs
+      let step := fun (acc : Proc × List String × Bool × Bool) (ev : Event) =>
+        let (p, outs, nt, bad) := acc
+        let t := root.isTriggering ev
+        let m := root.matchEv rx ev
+        let (res, p') := p.addEvent rx sc ev
+        let x := match res with | some o => outNames o | none => "_"
+        -- cross-check of the model against the executable specification
+        let specX := names (Spec.firesList rx root.indexed sc.isAllowed ev)
+        let specOK := match res with
+          | some (.ok _) => x == specX
+          | none => specX == "_"
+          | _ => false
+        let kindHit := root.indexed.any (Spec.kindOK · ev)
+        (p', outs ++ ["T" ++ bit t ++ "/M" ++ outNames m ++ "/K" ++ bit res.isSome ++ "/X" ++ x],
+          nt || kindHit, bad || !specOK)
+      let (_, outs, nt, bad) := evs.foldl step (({ root := root } : Proc), [], false, false)
+      let res := "a=" ++ (if errs.isEmpty then "_" else String.join (errs.map bit)) ++
+        String.join (outs.map (" " ++ ·))
+      (if bad then "MODEL-DEVIATES-FROM-SPEC " else "") ++ res ++ (if nt then "\tnt=1" else "")
+    | _, _, _, _ => "bad-payload"
+  | _, _, _, _ => "bad-payload"
+
+def run (_args : List String) : IO Unit := lineLoop runCase
 end Ecal.Drv.C01
